@@ -67,7 +67,7 @@ def run(tier, seed, started):
     coverage = {
         'evaluations': c['executions'],
         'distinct_nontrivial': len(res.sets.get('schedules', ())),
-        'rule': ('16 scenarios x every choice vector with total deviation cost <= bound over the '
+        'rule': (f'{len(fullrun.scenarios())} scenarios x every choice vector with total deviation cost <= bound over the '
                  'quiescent points of the explored phase; distinct = (scenario, choice vector)'),
         'deviation_bound_completed': 1 if tier == 'quick' else '2 on ' + ', '.join(BOUND2) + '; 1 on the others',
         'choice_points': c['choice_points'],
